@@ -51,6 +51,8 @@ impl Listener {
     /// * - SocketError: errors from accept().
     pub fn accept(&self) -> Result<Option<UnixStream>> {
         loop {
+            #[cfg(feature = "verif-hooks")]
+            crate::verif::wait_readable(self.fd.as_raw_fd(), "listener.accept");
             match self.fd.accept() {
                 Ok((socket, _addr)) => return Ok(Some(socket)),
                 Err(e) => {
@@ -143,6 +145,10 @@ impl<H: MsgHeader> Endpoint<H> {
     /// * - SocketError: other socket related errors.
     pub fn send_iovec(&mut self, iovs: &[&[u8]], fds: Option<&[RawFd]>) -> Result<usize> {
         let rfds = fds.unwrap_or_default();
+        #[cfg(feature = "verif-hooks")]
+        if let Some(res) = crate::verif::send(&self.sock, iovs, rfds) {
+            return res.map_err(Into::into);
+        }
         self.sock.send_with_fds(iovs, rfds).map_err(Into::into)
     }
 
@@ -292,6 +298,11 @@ impl<H: MsgHeader> Endpoint<H> {
             iov_base: rbuf.as_mut_ptr() as *mut c_void,
             iov_len: len,
         }];
+        #[cfg(feature = "verif-hooks")]
+        // SAFETY: Safe because we own rbuf and it's safe to fill a byte array with arbitrary data.
+        if let Some(res) = unsafe { crate::verif::recv(&self.sock, &mut iovs, &mut []) } {
+            return Ok((res?.0, rbuf));
+        }
         // SAFETY: Safe because we own rbuf and it's safe to fill a byte array with arbitrary data.
         let (bytes, _) = unsafe { self.sock.recv_with_fds(&mut iovs, &mut [])? };
         Ok((bytes, rbuf))
@@ -326,6 +337,14 @@ impl<H: MsgHeader> Endpoint<H> {
         iovs: &mut [iovec],
     ) -> Result<(usize, Option<Vec<File>>)> {
         let mut fd_array = vec![0; MAX_ATTACHED_FD_ENTRIES];
+        #[cfg(feature = "verif-hooks")]
+        let hooked = crate::verif::recv(&self.sock, iovs, &mut fd_array);
+        #[cfg(feature = "verif-hooks")]
+        let (bytes, fds) = match hooked {
+            Some(res) => res?,
+            None => self.sock.recv_with_fds(iovs, &mut fd_array)?,
+        };
+        #[cfg(not(feature = "verif-hooks"))]
         let (bytes, fds) = self.sock.recv_with_fds(iovs, &mut fd_array)?;
 
         let files = match fds {
